@@ -365,3 +365,32 @@ C10 = dict(
 )
 # not registered: both harnesses exhaust 9 GB (drop glue of io::Error / dyn Future fan-out); C10 stays not_applicable
 # PROPS["C10"] = C10
+
+# --------------------------------------------------------------------------------------------- S-level
+# Rules for the S-harnesses (real core.rs + oplog + tree + bitfield against the storage model).
+_S_RULES = [(r"^memcpy\.|^memmove\.", 10000), (r"7storage.*4File(4read|5write|4zero)\.", 10000)] + _TREE_RULES + [(r"FixedBitfield9from_data", 1030), (r"FixedBitfield8to_bytes", 1030), (r"increase_cache", 10),
+                          (r"FixedBitfield9set_range", 8), (r"DynamicBitfield9set_range", 5), (r"update_contiguous_length", 8),
+                          (r"try_fold|4find|8index_of|13last_index_of", 40)]
+FS10K = ["--max-field-sensitivity-array-size", "10000"]
+
+
+def _S(desc="", sym="", bound="", tier="quick", timeout=900, unwind=6, extra=FS10K, mem_gb=9):
+    return H(tier, desc, sym, bound, rules=_S_RULES, timeout=timeout, unwind=unwind, extra=extra, mem_gb=mem_gb)
+
+
+# dev-only probes (not in MANIFEST)
+PROPS["S00"] = dict(
+    title="S-gate probes", variant="s", patterns=["s00_"], functions=[], oracle="", outside=[],
+    groups=[dict(variant="s", patterns=["s00_"])],
+    harnesses={
+        "s00_micro_read": _S("storage model read/write"),
+        "s00_micro_open1": _S("m"),
+        "s00_micro_c1": _S("m"),
+        "s00_micro_c3": _S("m"), "s00_micro_c4": _S("m"), "s00_micro_c5": _S("m"),
+        "s00_micro_c2": _S("m"),
+        "s00_micro_open2": _S("m"),
+        "s00_probe_new": _S("Hypercore::new on empty model storage"),
+        "s00_probe_new_append": _S("new + append"),
+        "s00_probe_new_append_reopen_get": _S("new + append + reopen + get"),
+    },
+)
